@@ -252,6 +252,15 @@ func (v *VLANAllocator) LoadFromStore(ctx context.Context, ntes []*NTE) error {
 			continue
 		}
 
+		// A stored pair that another NTE already holds here (stale record of a
+		// released NTE, or a foreign record) must not be installed a second time
+		if holder, used := v.sTagUsage[nte.STag][nte.CTag]; used && holder != nte.ID {
+			continue
+		}
+
+		// The NTE gives up whatever pair it held before the reload
+		v.releaseUnlocked(nte.ID)
+
 		alloc := &VLANAllocation{
 			STag:  nte.STag,
 			CTag:  nte.CTag,
